@@ -84,8 +84,7 @@ def run(prop, tier, seed, replay=None):
         # ---- the parameter clause ("the retry uses ... the parameter values of the recorded run"): real start + retry runs
         # with probe steps (the rig of C11), judged by ParamsObserve; only the retry-side clauses count here
         import c11_check
-        pscs = [s for s in c11_check.scenarios(tier, seed) if s["atStart"] and not s["errNoise"]
-                and not any(p["name"] == "" and p["class"] == "eq" for p in s["params"])][:60 if q else 400]
+        pscs = [s for s in c11_check.scenarios(tier, seed) if s["atStart"] and not s["errNoise"]][:60 if q else 400]
         pjobs = []
         npw = min(vp.NCPU, 8)
         for w in range(npw):
